@@ -241,9 +241,42 @@ func genPath(r *Rng, min int) []string {
 	return p
 }
 
+var urlDroppable = []string{"", "", "x;y", "c=x;y", ";", "k=%zz", "%=1", "a%2", "x=%4", "k=%a'", "%zz", "s;t=1&u"}
+
+// well-formed parameters with droppable pieces (empty, semicolon, invalid escape) placed in
+// first / middle / last position: a well-formed parameter must survive whatever stands around it
+func genDroppableQuery(r *Rng) string {
+	n := 2 + r.Intn(3)
+	var ps []string
+	for i := 0; i < n; i++ {
+		ps = append(ps, pick(r, urlKeys[:8])+"="+pick(r, urlVals[:12]))
+	}
+	ins := func(pos int) {
+		ps = append(ps[:pos], append([]string{pick(r, urlDroppable)}, ps[pos:]...)...)
+	}
+	switch r.Intn(5) {
+	case 0:
+		ins(0)
+	case 1:
+		ins(1 + r.Intn(len(ps)-1))
+	case 2:
+		ins(len(ps))
+	case 3:
+		ins(len(ps))
+		ins(0)
+	default:
+		ins(len(ps))
+		ins(1 + r.Intn(len(ps)-1))
+	}
+	return strings.Join(ps, "&")
+}
+
 func genQuery(r *Rng) *string {
 	if r.Chance(40) {
 		return nil
+	}
+	if r.Chance(25) {
+		return sp(genDroppableQuery(r))
 	}
 	n := r.Intn(6)
 	var ps []string
@@ -799,6 +832,29 @@ func execURL(input string) Result {
 		q := text[i+1:]
 		if j := strings.IndexByte(q, '#'); j >= 0 {
 			q = q[:j]
+		}
+		if parts := strings.Split(q, "&"); len(parts) >= 2 {
+			dropp := func(p string) bool {
+				if p == "" || strings.Contains(p, ";") {
+					return true
+				}
+				k, v, _ := strings.Cut(p, "=")
+				_, e1 := url.QueryUnescape(k)
+				_, e2 := url.QueryUnescape(v)
+				return e1 != nil || e2 != nil
+			}
+			for i, p := range parts {
+				if dropp(p) {
+					switch {
+					case i == 0:
+						tags = append(tags, "query:droppable-first")
+					case i == len(parts)-1:
+						tags = append(tags, "query:droppable-last")
+					default:
+						tags = append(tags, "query:droppable-middle")
+					}
+				}
+			}
 		}
 		keys := map[string]int{}
 		np := 0
